@@ -166,6 +166,52 @@ def gen_helper_cases(rng, R: L.Real, n: int, stats: Counter):
             co = None
         add("ruleCollapseSlice2", f"sliceSameShape {L.enc_shape(cd)} {L.enc_shape(co)} {L.enc_ints(a_sp)}",
             lambda a=a_st, b=a_en, c=a_ax, d=a_sp, e=cd, f=co: R.rule_collapse_slice(2, a if a else [0], b if b else [5], c if c else [0], d, e, f))
+        # ---- ReshapeReshape: Reshape(Reshape(x, s0), shape) -> Reshape(x, new_shape)
+        rk_ = rng.choice([1, 2, 2, 3, 3, 4])
+        pat = rng.random()
+        rsh = [rng.choice([1, 2, 3, 5, 7, 4]) for _ in range(rk_)]
+        if pat < 0.3:      # one 0, nothing negative
+            rsh[rng.randrange(rk_)] = 0
+        elif pat < 0.45:   # one -1
+            rsh[rng.randrange(rk_)] = -1
+        elif pat < 0.6:    # 0 and -1 mixed freely
+            rsh = [rng.choice([0, -1, 2, 3]) for _ in range(rk_)]
+            if rk_ >= 2 and rng.random() < 0.5:
+                i_, j_ = rng.sample(range(rk_), 2)
+                rsh[i_], rsh[j_] = 0, -1
+        elif pat < 0.7:    # several zeros
+            rsh = [rng.choice([0, 0, 2]) for _ in range(rk_)]
+        elif pat < 0.75:
+            rsh[rng.randrange(rk_)] = rng.choice([-2, -1, 0])
+        if rng.random() < 0.25:
+            rout = None
+        else:
+            rl = rk_ + (rng.choice([1, -1, 2]) if rng.random() < 0.15 else 0)
+            rout = []
+            for i_ in range(max(rl, 0)):
+                c_ = rng.random()
+                sv_ = rsh[i_] if i_ < rk_ else 5
+                if c_ < 0.45:
+                    rout.append(sv_ if sv_ > 0 else rng.choice([2, 3, 6, 1]))
+                elif c_ < 0.75:
+                    rout.append(rng.choice(L.NAMES))
+                elif c_ < 0.87:
+                    rout.append(None)
+                elif c_ < 0.95:
+                    rout.append(0)
+                else:
+                    rout.append(rng.choice([2, 6]))
+        raz = rng.choice([None, None, 0, 1, 1, 1, 2])
+        if 0.45 <= pat < 0.7 and rng.random() < 0.5:
+            # keep the failing-check paths (0 beside a negative entry, several zeros) frequent: nothing overwrites, allowzero off
+            rout, raz = None, rng.choice([None, 0])
+        rdyn = rng.random() < 0.05
+        rx = L.gen_oshape(rng, p_none=0.1, max_rank=3)
+        rs0 = rng.choice([[-1], [0, -1], None, [1, -1]])
+        riaz = rng.choice([None, None, 1])
+        add("ruleReshapeReshape",
+            f"reshapeReshape {'N' if rdyn else L.enc_ints(rsh)} {L.enc_shape(rout)} {0 if raz is None else raz}",
+            lambda a=rsh, b=rout, c=raz, d=rx, e=rs0, f=rdyn, g=riaz: R.rule_reshape_reshape(("dyn", len(a)) if f else a, b, c, d, e, g))
         # ---- SqueezeReshape1d and get_shape_value
         sx = L.gen_oshape(rng, p_none=0.1, max_rank=2)
         add("ruleSqueezeReshape", f"squeezeReshape {L.enc_shape(sx)}", lambda a=sx: R.rule_squeeze_reshape(a))
@@ -217,6 +263,11 @@ def gen_helper_cases(rng, R: L.Real, n: int, stats: Counter):
         if kind in "cm":
             if ish is not None and all(isinstance(d, int) for d in ish) and rng.random() < 0.6:
                 cT = list(ish)
+            elif ish is not None and rng.random() < 0.45:
+                # a target that broadcasts to the input shape itself through 1s; optionally rank-extending by leading 1s
+                lead = rng.choice([0, 1, 1, 2])
+                cT = [1] * lead + [(d if isinstance(d, int) and rng.random() < 0.6 else 1) for d in ish]
+                stats["br_expandIdentityRule:target_lead1" if lead else "br_expandIdentityRule:target_ones"] += 1
             else:
                 cT = [rng.choice(L.INTS) for _ in range(rng.randint(0, 3))]
             add("evExpand", f"evExpand {L.enc_shape(ish)} {kind} {L.enc_ints(cT)} N", lambda i=ish, k=kind, c=cT: R.ev_expand(i, k, c, None))
@@ -236,6 +287,22 @@ def gen_helper_cases(rng, R: L.Real, n: int, stats: Counter):
             else:
                 tshape = L.gen_oshape(rng)
             ins.append((tshape, svk))
+        if rng.random() < 0.15:
+            # concat-compatible operands that are all empty along an axis other than the concat axis
+            rr_ = rng.choice([2, 2, 3])
+            cax = rng.randrange(rr_)
+            zx_ = rng.choice([i for i in range(rr_) if i != cax])
+            base_ = [rng.choice(["N", "M", 2, 3]) for _ in range(rr_)]
+            base_[zx_] = 0
+            ins = []
+            for _ in range(rng.choice([2, 2, 3])):
+                sh_ = list(base_)
+                sh_[cax] = rng.choice(["N", "M", "B", 1, 2, 0])
+                ins.append((sh_, None))
+            if rng.random() < 0.4:
+                cax -= rr_
+            nin = len(ins)
+            stats["br_evConcat:zero_other_axis"] += 1
         consts = [rng.random() < 0.5 for _ in ins]
         if nin > 0:
             add(
@@ -317,6 +384,82 @@ def gen_bcast_like(rng, x, y):
     if rng.random() < 0.07:
         o = [1] + o
     return o
+
+
+def dec_oints(t):
+    return None if t == "N" else ([] if t == "-" else [int(v) for v in t.split(",")])
+
+
+def dec_oshape(t):
+    if t == "N":
+        return None
+    if t == "-":
+        return []
+    return [None if d == "u" else int(d[1:]) if d[0] == "k" else d[1:] for d in t.split(",")]
+
+
+def rr_branches(line: str, answer: str):
+    """Branch labels of a `reshapeReshape` case (which path of ReshapeReshape.check it takes), from its inputs."""
+    t = line.split(" ")
+    shape, out, az = dec_oints(t[1]), dec_oshape(t[2]), int(t[3])
+    k = "ruleReshapeReshape:"
+    if shape is None:
+        return [k + "N:notconst"]
+    labs = [k + ("out_known" if out is not None else "out_none")]
+    u = list(shape)
+    raised = False
+    for i, d in enumerate(out or []):
+        if isinstance(d, int) and d > 0:
+            if i >= len(u):
+                raised = True
+                break
+            if u[i] == 0:
+                labs.append(k + "upd:zero")
+            elif u[i] == -1:
+                labs.append(k + "upd:neg")
+            u[i] = d
+    if raised:
+        return labs + [k + "RAISE"]
+    if out is not None and len(out) < len(shape):
+        labs.append(k + "out_short")
+    if az == 1 and 0 in u:
+        return labs + [k + "az1"]
+    if az == 1:
+        labs.append(k + "az1_nozero")
+    if 0 in u and any(v < 0 for v in u):
+        return labs + [k + "N:zero_and_neg"]
+    if u.count(0) > 1:
+        return labs + [k + "N:two_zeros"]
+    return labs + [k + ("az0:zero2neg" if 0 in u else "az0:plain")]
+
+
+def spec_reshape(inp, tgt, az):
+    """ONNX Reshape output shape (python twin of the Lean `reshapeTarget`, which is tied to onnxruntime per run); None = rejected."""
+    if tgt.count(-1) > 1 or any(d < -1 for d in tgt) or (az and 0 in tgt and -1 in tgt):
+        return None
+    t1 = []
+    for i, d in enumerate(tgt):
+        if d == 0 and not az:
+            if i >= len(inp):
+                return None
+            t1.append(inp[i])
+        else:
+            t1.append(d)
+    P = 1
+    for d in inp:
+        P *= d
+    if -1 in t1:
+        kk = 1
+        for d in t1:
+            if d != -1:
+                kk *= d
+        if kk == 0 or P % kk:
+            return None
+        return [P // kk if d == -1 else d for d in t1]
+    q = 1
+    for d in t1:
+        q *= d
+    return t1 if q == P else None
 
 
 def branch_of(kind: str, answer: str) -> str:
